@@ -486,6 +486,9 @@ def run_shard(ctx):
             P([E(V('t'), B('*', V('t', off=-1), V('index')))]),
             P([E(V('Y'), C('max', [V('X'), C('min', [V('Z'), C('exp', [gen.Neg(C('abs', [V('W')]))])])]))]),
             P([E(V('Y'), B('+', B('*', V('b', 'param'), V('Y', off=-1)), V('e', 'error')))]),
+            # offsets of more than one digit (a monthly model's year-on-year terms), next to one-digit offsets of the same variables
+            P([E(V('Y'), B('+', B('*', N('0.5'), V('X', off=-12)), B('-', V('X', off=-1), B('*', N('0.25'), V('Y', off=-10)))))]),
+            P([E(V('Y'), B('+', V('X', off=11), B('*', N('0.5'), V('X', off=1)))), E(V('Z'), B('-', V('Y', off=-10), V('Y', off=-1)))]),
         ]
         # long statements written without a single blank (the generated Fortran then has long unbroken runs to wrap)
         names_ = ['C', 'G', 'YD', 'W', 'V', 'Zz', 'T', 'H_h', 'x1', 'Pin', 'origin', 'k9']
